@@ -325,6 +325,32 @@ def cases(tier):
                         opts = {} if (gi + xi) % 3 else {"optimize_with_safe_sequences": False, "optimize_with_max_safe_antichain_as_subset_constraints": True}
                         yield dict(kind="cyc_model", model="kPathCoverCycles" if (gi + si + xi) % 2 == 0 else "kMinPathErrorCycles",
                                    edges=E, starts=st, ends=en, X=[list(e) for e in X], k=k, opts=opts)
+        # two SCCs joined by parallel edges (sequences of different lengths), every combination of the safe-sequence / antichain options
+        if ni == 0:
+            A_shapes = [[("a1", "a2"), ("a2", "a1")], [("a1", "a2"), ("a2", "a1"), ("a2", "a2")]]
+            B_shapes = [[("b1", "b2"), ("b2", "b1")], [("b1", "b2"), ("b2", "b1"), ("b2", "b2")]] + ([] if quick else [[("b1", "b2"), ("b2", "b3"), ("b3", "b1")]])
+            inter_all = [(a, b) for a in ("a1", "a2") for b in ("b1", "b2")]
+            OPTS = [{}, {"optimize_with_max_safe_antichain_as_subset_constraints": True},
+                    {"optimize_with_safe_sequences": False, "optimize_with_max_safe_antichain_as_subset_constraints": True},
+                    {"optimize_with_safe_sequences": True, "optimize_with_safe_zero_edges": False, "optimize_with_max_safe_antichain_as_subset_constraints": True}]
+            ci = 0
+            for A in A_shapes:
+                for B in B_shapes:
+                    for r in (2, 3):
+                        for inter in itertools.combinations(inter_all, r):
+                            for outer in (True, False):
+                                E = [list(e) for e in A + B + list(inter)]
+                                if outer:
+                                    E += [["s", "a1"], ["b1", "t"]]
+                                    st, en = [], []
+                                else:
+                                    st, en = ["a1"], ["b1"]
+                                for oi, opts in enumerate(OPTS):
+                                    ci += 1
+                                    if quick and ((ci - 1) // len(OPTS) + oi) % 2:
+                                        continue
+                                    yield dict(kind="cyc_model", model="kPathCoverCycles" if ci % 2 else "kMinPathErrorCycles", edges=sorted(E), starts=st, ends=en,
+                                               X=sorted(E), k=(2, 3, 4)[ci % 3], opts=opts)
         # DAG
         for n in ((2, 3, 4) if quick else (2, 3, 4, 5)):
             for gi, G in enumerate(graphs.dags(n, names)):
@@ -348,7 +374,7 @@ def cases(tier):
                 if fl and gi % 2 == 0 and len(E) > 1:
                     f = fl[0][1]
                     yield dict(kind="dag_model", model="kFlowDecomp", edges=[[u, v, f[(u, v)]] for u, v in sorted(G.edges())], starts=[], ends=[],
-                               X=E, k=(2, 3, 5)[gi % 3], opts={}, ign=[E[gi % len(E)]])
+                               X=[e for e in E if e != E[gi % len(E)]], k=(2, 3, 5)[gi % 3], opts={}, ign=[E[gi % len(E)]])
 
 
 # ------------------------------------------------------------------------------------------------ checks
